@@ -23,6 +23,7 @@ type eqNode struct {
 	Op   int      `json:"op,omitempty"`
 	Note string   `json:"note,omitempty"` // what was mutated
 	Same bool     `json:"same,omitempty"` // the mutation must NOT be noticed (unexported field)
+	M    int      `json:"-"`              // construction history used by build (see fill)
 }
 
 type eqStruct struct {
@@ -140,9 +141,12 @@ func (n eqNode) build() any {
 		} else {
 			s = newStackKind(n.Kind)
 		}
-		for _, k := range n.Kids {
-			s.Push(k.build())
+		var vals []any
+		for i, k := range n.Kids {
+			k.M = n.M*5 + i + 1
+			vals = append(vals, k.build())
 		}
+		fill(s, vals, n.M)
 		if n.T == "alias" {
 			return StackAlias(s)
 		}
@@ -433,7 +437,10 @@ func mutClass(note string) string {
 }
 
 func c05Check(c *Ctx, n eqNode, count bool) {
-	a, b := n.build(), n.build()
+	// "built twice independently": also through two different operation histories
+	n1, n2 := n, n
+	n1.M, n2.M = len(n.String())%fillModes, (len(n.String())+3)%fillModes
+	a, b := n1.build(), n2.build()
 	size := len(n.String())
 	for dir, pair := range [][2]any{{a, b}, {b, a}} {
 		err, p := isEqualErr(pair[0], pair[1])
@@ -450,6 +457,7 @@ func c05Check(c *Ctx, n eqNode, count bool) {
 		c.Transitions.Add(2)
 	}
 	for _, m := range n.mutants() {
+		m.M = (len(n.String()) + 5) % fillModes
 		mv := m.build()
 		var res [2]bool
 		for dir, pair := range [][2]any{{a, mv}, {mv, a}} {
